@@ -143,6 +143,9 @@ func runC14(r *Rec) {
 			r.Count(fmt.Sprintf("cfg:restricted=%v", ic.restricted()))
 			for i := 0; i < len(tuples); i += len(payers) {
 				var cases []txCase
+				if r.Rng.Intn(4) == 0 {
+					cases = append(cases, h.interfere(ic))
+				}
 				for j := 0; j < len(payers) && i+j < len(tuples); j++ {
 					p := payers[j]
 					var ms []aMsg
